@@ -21,7 +21,7 @@ RULE = ('corpus: every clause shape with 0..3 variables that occur only inside h
         'be byte-identical to the default-order output; (b) the whole corpus is compiled in fresh processes under '
         'PYTHONHASHSEED 0..5 (thorough 0..15) and the per-program digests must agree; (c) in one process every ordered pair '
         'of corpus programs (from a subset, incl. the same text under other options: debug_filename with different file names, the file API and the library\'s default options object, a CompilerContext instance) is compiled before the target and the target\'s output compared with its output '
-        'in a fresh state; (d) the whole corpus is compiled in one process in 3 orders (forward, reverse, interleaved: every program after every other one) and every output compared with the output of a child forked from a process that has never compiled anything. states = distinct (program, output digest) pairs; transitions = compiler invocations; non-trivial '
+        'in a fresh state; (d) the whole corpus is compiled in one process in 3 orders (forward, reverse, interleaved: every program after every other one; every third program also with the tracing options on, forward and reverse) and every output compared with the output of a child forked from a process that has never compiled anything. states = distinct (program, output digest) pairs; transitions = compiler invocations; non-trivial '
         '= the program has >= 2 fresh variables or a choice point was explored')
 ASSUMPTIONS = ['nondeterminism that does not flow through a call of set()/frozenset() by name (set displays, id() ordering, '
                'dict order of unhashable keys) is covered only by the process/seed runs (b) and the history runs (c)']
@@ -108,6 +108,17 @@ def compile_or_exc(text, opts=None):
             finally:
                 import shutil
                 shutil.rmtree(d, ignore_errors=True)
+        if opts in ('debug-parser', 'debug-all'):
+            # tracing on (the trace goes to a discarded stream; the RETURNED code is what is compared)
+            import io
+
+            class DCtx(impl.Ctx):
+                debug_parser = True
+                debug_generator = opts == 'debug-all'
+                debug_filename = opts == 'debug-all'
+                current_source_file = 'traced.pl'
+                outf = io.StringIO()
+            return impl.compiler.compile_prolog_from_string(text, DCtx)
         if opts == 'string-default-options':
             return impl.compiler.compile_prolog_from_string(text)
         if opts == 'debug-filename-context-instance':
@@ -288,8 +299,8 @@ from mc.checks import c18
 from mc.runner import in_child
 def job(texts):
     out = None
-    for t in texts:
-        out = c18.compile_or_exc(t)
+    for t, o in texts:
+        out = c18.compile_or_exc(t, o)
     return c18.digest(out)
 jobs = json.load(sys.stdin)
 json.dump([in_child(job, j) for j in jobs], sys.stdout)
@@ -325,7 +336,7 @@ def zygote(jobs, ways=4):
     return res
 
 
-SWEEPS = ['forward', 'reverse', 'evens-then-odds-reversed']
+SWEEPS = ['forward', 'reverse', 'evens-then-odds-reversed', 'forward@debug-all', 'reverse@debug-parser']
 
 
 def sweep_order(cp, order):
@@ -337,28 +348,32 @@ def sweep_order(cp, order):
 
 
 def run_sweep(acc, tier, order):
+    order, _, opts = order.partition('@')
+    opts = opts or None
     cp = sweep_order(corpus_wide(tier), order)
-    base = zygote([[t] for _, t in cp])
+    if opts:
+        cp = cp[::3]      # the traced compilations are slow
+    base = zygote([[(t, opts)] for _, t in cp])
     for i, (name, text) in enumerate(cp):
-        d = digest(compile_or_exc(text))
+        d = digest(compile_or_exc(text, opts))
         acc.n['evaluations'] += 1
         acc.n['validated'] += 1
         acc.n['transitions'] += 2
         acc.n['nontrivial'] += 1 if i else 0
         if d == base[i]:
-            acc.outcome((name, d))
+            acc.outcome((name, opts, d))
             continue
         # name a single earlier program that is enough, if there is one
         culprit = ''
         if acc.n['sweep_minimisations'] < 2:
             acc.n['sweep_minimisations'] += 1
-            pair = zygote([[t0, text] for _, t0 in cp[:i]])
+            pair = zygote([[(t0, opts), (text, opts)] for _, t0 in cp[:i]])
             hits = [cp[j] for j, dj in enumerate(pair) if dj != base[i]]
             if hits:
                 culprit = '\nalready after compiling only this program before it in a fresh process:\n%s' % hits[0][1]
-        acc.violation('output-depends-on-earlier-compilations', (3, order, i), {'sweep': order, 'tier': tier, 'target': name},
-                      'program %s\n%s\ncompiled as number %d of the corpus in %s order gives another text (digest %s) than as the first compilation '
-                      'of a fresh process (digest %s)%s' % (name, text, i + 1, order, d, base[i], culprit), key='sweep|%s|%s' % (order, name))
+        acc.violation('output-depends-on-earlier-compilations', (3, order, opts, i), {'sweep': order + ('@' + opts if opts else ''), 'tier': tier, 'target': name},
+                      'program %s\n%s\ncompiled (options: %s) as number %d of the corpus in %s order gives another text (digest %s) than as the first compilation '
+                      'of a fresh process (digest %s)%s' % (name, text, opts or 'all debug options off', i + 1, order, d, base[i], culprit), key='sweep|%s|%s|%s' % (order, opts, name))
 
 
 # ---------------------------------------------------------------- plan / run
